@@ -91,9 +91,11 @@ def build_one(vfile, force=False, timeout=900):
     return dict(file=vfile, ok=ok, out=out, secs=secs, cached=False)
 
 
-def build_theories():
+def build_theories(only=None):
     res = []
     for t in THEORIES:
+        if only is not None and t not in only:
+            continue
         f = 'theories/%s.v' % t
         if not os.path.exists(os.path.join(COQ, f)):
             continue
